@@ -181,6 +181,7 @@ pub fn run(args: &Args) -> i32 {
         for (name, keys, traces) in small {
             let mut al: Vec<Ev> = keys.into_iter().map(Ev::Key).collect();
             al.extend(traces.into_iter().map(|t| Ev::Trace(t, 0)));
+            let al = crate::c17::with_races(&al);
             let depth = if tier == Tier::Thorough { 16 } else { 10 };
             let r = explore::bfs(&rich, &al, &[], depth, if tier == Tier::Thorough { 100_000 } else { 3_000 }, mk);
             states += r.states;
